@@ -1,23 +1,30 @@
 (* stream rel-edit: the register machine of coq/model/RelEdit.v on the case files of
    harness/src/s_reledit.rs (same record format).
-   VERIF_C11_MODEL=shipped evaluates the model of the code as it is in /repo; the default is the
-   model of the code with the proposed fixes; VERIF_C11_MODEL=fixed-<name> leaves out one fix. *)
+   VERIF_C11_MODEL selects the variant of the model: shipped | fixed (default) | fixes:<a>,<b>,..
+   (exactly those fixes; vlib/props/c11.py sets this from the fixes it finds applied in the
+   repository under test) | only-<name> | no-<name>. *)
 open Util
 open Base
 open RelEdit
 
 let variant : RelEdit.variant =
+  let mk f =
+    { fx_insert_first = f "insert-first"; fx_append_sep = f "append-sep"; fx_pipe = f "pipe";
+      fx_mut_root = f "mut-root"; fx_add_profile = f "add-profile"; fx_entry_push = f "entry-push";
+      fx_builder_archs = f "builder-archs"; fx_version_pos = f "version-pos"; fx_remove_last = f "remove-last";
+      fx_first_substvar = f "first-substvar"; fx_replace_ws = f "replace-ws" } in
   match (try Sys.getenv "VERIF_C11_MODEL" with Not_found -> "fixed") with
   | "shipped" -> RelEdit.shipped
   | "fixed" | "" -> RelEdit.fixed
+  | s when S.length s >= 6 && S.sub s 0 6 = "fixes:" ->
+    (* exactly the listed fixes (what vlib/props/c11.py finds applied in the repository) *)
+    let l = S.split_on_char ',' (S.sub s 6 (S.length s - 6)) in
+    mk (fun n -> L.mem n l)
   | s ->
     (* "only-<name>": the shipped code plus one fix; "no-<name>": all fixes but one *)
     let only = S.length s > 5 && S.sub s 0 5 = "only-" in
     let name = if only then S.sub s 5 (S.length s - 5) else S.sub s 3 (S.length s - 3) in
-    let f n = if n = name then only else not only in
-    { fx_insert_first = f "insert-first"; fx_append_sep = f "append-sep"; fx_pipe = f "pipe";
-      fx_mut_root = f "mut-root"; fx_add_profile = f "add-profile"; fx_entry_push = f "entry-push";
-      fx_builder_archs = f "builder-archs"; fx_version_pos = f "version-pos"; fx_remove_last = f "remove-last"; fx_first_substvar = f "first-substvar"; fx_replace_ws = f "replace-ws" }
+    mk (fun n -> if n = name then only else not only)
 
 let u = str_of_hex
 let nat s = nat_of_int (int_of_string s)
